@@ -10,6 +10,8 @@ Specifications (all expected values come out of TLC, as the dumped state graphs)
   spec/RegexAst.tla     value-state machine over pattern ASTs: state = (r, full, found)
   spec/RegexFns.tla     (pattern, growing input): matches / tokenize / replace / analyze-string laws,
                         `adm` = admissible partitions
+  spec/RegexReplace.tla replacement strings of fn:replace: $N references cut back to the longest valid group
+                        number, \\$ and \\\\ escapes, expansion per number of capturing groups
   spec/RegexSyntax.tla  recogniser of valid token strings, flag q literal sub-string relation
 
 Binding A (this module): AST -> pattern text (dumb renderer) -> elementpath.regex.translate_pattern
@@ -72,6 +74,8 @@ def render_class(cl, native: bool = False) -> str:
             out.append(pat_char(it['c'], True))
         elif it['k'] == 'r':
             out.append(pat_char(it['lo'], True) + '-' + pat_char(it['hi'], True))
+        elif it['k'] == 'rx':       # range whose end point is the metacharacter it['x'], written as an escape
+            out.append(pat_char(it['lo'], True) + '-\\' + it['x'])
         else:
             out.append(render_esc(it['e'], it['cat']))
     if cl['sub']:
@@ -328,6 +332,7 @@ def class_features(cl, ver: str, mode: str, den, obs, pinned) -> dict:
     f['esc_after_hyphen'] = any(a['k'] == 'c' and a['c'] == 3 and escaped(b)
                                 for g in groups for a, b in zip(g['items'], g['items'][1:]))
     f['esc_range_start'] = any(it['k'] == 'r' and it['lo'] == 1 for g in groups for it in g['items'])
+    f['esc_range_end'] = any(it['k'] == 'rx' for g in groups for it in g['items'])
     if isinstance(obs, tuple):
         f['outcome'] = ':'.join(map(str, obs))
     else:
@@ -406,7 +411,7 @@ def class_key(st):
     return (st['items'], st['neg'], st['sub'])
 
 
-ALL_ITEMS = {"NL", "SP", "HY", "5", "A", "_", "a", "b", "AS", "a-b", "A-a", "5-A", "SP-5", "NL-AS",
+ALL_ITEMS = {"NL", "SP", "HY", "5", "A", "_", "a", "b", "AS", "a-b", "A-a", "5-A", "SP-5", "NL-AS", "5-CARET", "a-RBRACE",
              "d", "D", "s", "S", "w", "W", "i", "I", "c", "C",
              "pL", "PL", "pLu", "PLu", "pNd", "pP", "PP", "pZs", "pS", "PS", "pCc"}
 
@@ -420,7 +425,7 @@ CLASS_CONFIGS = {
                                 SubNames=set(), MaxItems=2, MaxSubItems=1), 8, 2),
         # (large positive sets in the main group are avoided where the subtracted class has a negated part:
         #  CharacterClass.__isub__ then intersects code point by code point, [\\w-[\\D]] takes seconds)
-        ('sub', '1.0', dict(ItemNames={"a", "5", "AS", "a-b", "d", "D", "S"}, ItemNames3=set(),
+        ('sub', '1.0', dict(ItemNames={"a", "5", "d", "D", "S"}, ItemNames3=set(),
                             SubNames={"a", "5", "d", "D", "S"}, MaxItems=2, MaxSubItems=2), 64, 8),
     ],
     'thorough': [
@@ -439,19 +444,23 @@ CLASS_CONFIGS = {
 }
 
 
-def run_classes(chk: core.Check, totals: dict) -> None:
-    jobs = []
-    for name, ver, consts, fn_mod, xsd_mod in CLASS_CONFIGS[chk.tier]:
-        for variant in ('fixed', 'pinned'):
-            # fixed: the repaired algorithm must refine the definitional set; pinned: the transcription of the
-            # pinned tree is only dumped (TLC refutes Refines for it, see the note below)
-            jobs.append((f'RegexClass/{name}/{variant}', 'RegexClass', dict(XsdVersion=ver, Flag="", Variant=variant, **consts),
-                         ['Laws', 'Refines'] if variant == 'fixed' else ['Laws'],
-                         os.path.join(chk.scratch, f'class-{name}-{variant}')))
-    done = tlc_batch(jobs, chk.tier)
+def class_variants(tier: str):
+    # fixed: the repaired algorithm (in the tree since commit b292dd3) must refine the definitional set.
+    # pinned: the transcription of the algorithm BEFORE that repair is only dumped (TLC refutes Refines for it); it
+    # tells whether a failing class is the one the old algorithm produced (feature pinned_model).  Thorough only.
+    return ('fixed', 'pinned') if tier == 'thorough' else ('fixed',)
+
+
+def jobs_classes(chk: core.Check) -> list:
+    return [(f'RegexClass/{name}/{variant}', 'RegexClass', dict(XsdVersion=ver, Flag="", Variant=variant, **consts),
+             ['Laws', 'Refines'] if variant == 'fixed' else ['Laws'], os.path.join(chk.scratch, f'class-{name}-{variant}'))
+            for name, ver, consts, fn_mod, xsd_mod in CLASS_CONFIGS[chk.tier] for variant in class_variants(chk.tier)]
+
+
+def run_classes(chk: core.Check, totals: dict, done: dict) -> None:
     for name, ver, consts, fn_mod, xsd_mod in CLASS_CONFIGS[chk.tier]:
         graphs = {}
-        for variant in ('fixed', 'pinned'):
+        for variant in class_variants(chk.tier):
             r, dot = done[f'RegexClass/{name}/{variant}']
             if variant == 'fixed':
                 chk.model(f'RegexClass/{name}', r)
@@ -460,12 +469,14 @@ def run_classes(chk: core.Check, totals: dict) -> None:
         g = graphs['fixed']
         if consts['SubNames'] and not any(st['neg'] and st['sub'] and st['sub'][0]['neg'] for st in g.states.values()):
             raise tla.MachineryError(f'RegexClass/{name}: DoubleNegLaw is vacuous (no [^..-[^..]] state)')
-        pin = {class_key(st): (frozenset(st['ipos']) | (frozenset(SIGMA) - frozenset(st['ineg']))
-                               if st['ineg'] else frozenset(st['ipos']))
-               for st in graphs['pinned'].states.values()}
-        refuted = sum(1 for st in g.states.values() if st['items'] and pin[class_key(st)] != frozenset(st['den']))
+        pin = {}
+        if 'pinned' in graphs:
+            pin = {class_key(st): (frozenset(st['ipos']) | (frozenset(SIGMA) - frozenset(st['ineg']))
+                                   if st['ineg'] else frozenset(st['ipos']))
+                   for st in graphs['pinned'].states.values()}
+        refuted = sum(1 for st in g.states.values() if st['items'] and pin and pin[class_key(st)] != frozenset(st['den']))
         totals['pinned_model_refuted_states'] = totals.get('pinned_model_refuted_states', 0) + refuted
-        states = [(dict(items=st['items'], neg=st['neg'], sub=st['sub']), frozenset(st['den']), pin[class_key(st)])
+        states = [(dict(items=st['items'], neg=st['neg'], sub=st['sub']), frozenset(st['den']), pin.get(class_key(st)))
                   for st in g.states.values() if st['items']]
         states.sort(key=lambda x: render_class(x[0]))
         t0 = time.time()
@@ -476,9 +487,10 @@ def run_classes(chk: core.Check, totals: dict) -> None:
         print(f'  RegexClass/{name}: states={len(g.states)} pinned-model-refuted={refuted} '
               f'replay={time.time() - t0:.1f}s', flush=True)
     n = totals.get('pinned_model_refuted_states', 0)
-    chk.note(f'RegexClass: the as-implemented (positive, negative) model (Variant=pinned) violates Refines in {n} class '
-             f'expressions; the repaired model (Variant=fixed) satisfies it in all' if n else
-             'RegexClass: the Variant=pinned model is not refuted within these bounds')
+    if chk.tier == 'thorough':
+        chk.note(f'RegexClass: the model of the (positive, negative) algorithm as it was before commit b292dd3 '
+                 f'(Variant=pinned) violates Refines in {n} class expressions; the repaired model (Variant=fixed) '
+                 f'satisfies it in all')
 
 
 # ------------------------------------------------------------------------------------------
@@ -676,10 +688,13 @@ def subjects_of(consts) -> list:
     return [t for n in range(consts['MaxLen'] + 1) for t in itertools.product(chars, repeat=n)]
 
 
-def run_asts(chk: core.Check, totals: dict) -> None:
-    done = tlc_batch([(f'RegexAst/{name}', 'RegexAst', dict(XsdVersion=ver, Flag=flag, **consts),
-                       ['Laws'] + (['SearchLaw'] if search_law else []), os.path.join(chk.scratch, f'ast-{name}'))
-                      for name, flag, ver, consts, fn_mod, search_law in AST_CONFIGS[chk.tier]], chk.tier)
+def jobs_asts(chk: core.Check) -> list:
+    return [(f'RegexAst/{name}', 'RegexAst', dict(XsdVersion=ver, Flag=flag, **consts),
+             ['Laws'] + (['SearchLaw'] if search_law else []), os.path.join(chk.scratch, f'ast-{name}'))
+            for name, flag, ver, consts, fn_mod, search_law in AST_CONFIGS[chk.tier]]
+
+
+def run_asts(chk: core.Check, totals: dict, done: dict) -> None:
     for name, flag, ver, consts, fn_mod, search_law in AST_CONFIGS[chk.tier]:
         r, dot = done[f'RegexAst/{name}']
         chk.model(f'RegexAst/{name}', r)
@@ -832,9 +847,12 @@ FNS_CONFIGS['thorough'] = FNS_CONFIGS['quick'] + [
 ]
 
 
-def run_fns(chk: core.Check, totals: dict) -> None:
-    done = tlc_batch([(f'RegexFns/{name}', 'RegexFns', dict(XsdVersion='1.0', Flag=flag, **consts), ['Laws'],
-                       os.path.join(chk.scratch, f'fns-{name}')) for name, flag, consts in FNS_CONFIGS[chk.tier]], chk.tier)
+def jobs_fns(chk: core.Check) -> list:
+    return [(f'RegexFns/{name}', 'RegexFns', dict(XsdVersion='1.0', Flag=flag, **consts), ['Laws'],
+             os.path.join(chk.scratch, f'fns-{name}')) for name, flag, consts in FNS_CONFIGS[chk.tier]]
+
+
+def run_fns(chk: core.Check, totals: dict, done: dict) -> None:
     for name, flag, consts in FNS_CONFIGS[chk.tier]:
         r, dot = done[f'RegexFns/{name}']
         chk.model(f'RegexFns/{name}', r)
@@ -963,14 +981,18 @@ SYNTAX_CONFIGS = {
 }
 
 
-def run_syntax(chk: core.Check, totals: dict) -> None:
+def jobs_syntax(chk: core.Check) -> list:
     nq = 3 if chk.tier == 'quick' else 4
     jobs = [(f'RegexSyntax/{name}', 'RegexSyntax', dict(Tokens=tokens, First=first, MaxToks=n, Mode=mode, XsdVersion=ver),
              ['Laws'], os.path.join(chk.scratch, f'syn-{name}'))
             for name, mode, ver, tokens, first, n, do_fn in SYNTAX_CONFIGS[chk.tier]]
     jobs.append(('RegexSyntax/q', 'RegexSyntax', dict(Tokens=Q_TOKENS, First=Q_TOKENS, MaxToks=nq, Mode='xp3', XsdVersion='1.0'),
                  ['Laws'], os.path.join(chk.scratch, 'syn-q')))
-    done = tlc_batch(jobs, chk.tier)
+    return jobs
+
+
+def run_syntax(chk: core.Check, totals: dict, done: dict) -> None:
+    nq = 3 if chk.tier == 'quick' else 4
     for name, mode, ver, tokens, first, n, do_fn in SYNTAX_CONFIGS[chk.tier]:
         r, dot = done[f'RegexSyntax/{name}']
         chk.model(f'RegexSyntax/{name}', r)
@@ -1006,6 +1028,78 @@ def run_syntax(chk: core.Check, totals: dict) -> None:
     collect(chk, core.pool_map(q_worker, [pairs[k::32] for k in range(32)], procs=PROCS), totals)
     chk.add('traces_validated_against_impl', len(pairs))
     print(f'  RegexSyntax/q: states={len(g.states)} pairs={len(pairs)}', flush=True)
+
+
+# ------------------------------------------------------------------------------------------
+# RegexReplace: the replacement string of fn:replace ($N references, \\$ and \\\\ escapes)
+
+REP_TEXT = {'%$': '\\$', '%%': '\\\\'}
+LETTERS = 'abcdefghijkl'
+REPLACE_CONFIGS = {
+    'quick': dict(Tokens={"$", "0", "1", "2", "%$", "%%", "x"}, Groups={0, 1, 2, 10, 12}, MaxToks=4),
+    'thorough': dict(Tokens={"$", "0", "1", "2", "%$", "%%", "x"}, Groups={0, 1, 2, 9, 10, 11, 12}, MaxToks=5),
+}
+
+
+def group_pattern(n: int) -> str:
+    """a pattern with n capturing groups that matches the whole of LETTERS once: group k captures the k-th letter"""
+    return ''.join('(%s)' % c if k < n else c for k, c in enumerate(LETTERS))
+
+
+def replace_worker(job):
+    states = job
+    bag = Bag()
+    for rep, valid, exp in states:
+        text = ''.join(REP_TEXT.get(t, t) for t in rep)
+        bag.add('replacements')
+        for n, pieces in sorted(exp.items()):
+            h = zlib.crc32(f'{text}|{n}'.encode())
+            version = '2.0' if h % 3 == 0 else '3.1'
+            res = xpath_call('replace($s,$p,$r)', version, '1.0', s=LETTERS, p=group_pattern(n), r=text)
+            bag.add('evaluations')
+            res = res[0] if isinstance(res, list) and len(res) == 1 else res
+            if valid:
+                want = ''.join(LETTERS if x == 'g0' else LETTERS[int(x[1:]) - 1] if x[0] == 'g' and len(x) > 1 else
+                               '\\' if x == 'B' else x for x in pieces)
+                if any(x[0] == 'g' for x in pieces) and len(pieces) > 1:
+                    bag.add('nontrivial')
+            else:
+                want = 'error (FORX0004)'
+            ok = (res == want) if valid else (isinstance(res, tuple) and res[0] == 'err')
+            if not ok:
+                firsts = [int(b) for a, b in zip(rep, rep[1:]) if a == '$' and b in '012']
+                bag.fail(dict(kind='replace', valid=valid, groups=n, outcome='value' if isinstance(res, str) else
+                              ':'.join(map(str, res)) if isinstance(res, tuple) else repr(res),
+                              # a reference whose first digit alone exceeds the number of groups (stands for '')
+                              missing_ref=any(d > n for d in firsts),
+                              # an escaped backslash directly in front of a '$'
+                              bs_before_dollar=any(a == '%%' and b == '$' for a, b in zip(rep, rep[1:]))),
+                         dict(kind='replace', subject=LETTERS, pattern=group_pattern(n), replacement=text, parser=version),
+                         want, res, f"replace('{LETTERS}', '{group_pattern(n)}', {text!r}) should be {want!r}")
+        if len(bag.samples) < 1 and valid and len(rep) == 4 and rep[0] == '$' and rep[1] in '12' and rep[2] in '012':
+            bag.samples.append(dict(replacement=text, expansion_by_group_count={n: list(p) for n, p in exp.items()}))
+    return bag.result()
+
+
+def jobs_replace(chk: core.Check) -> list:
+    return [('RegexReplace', 'RegexReplace', REPLACE_CONFIGS[chk.tier], ['Laws'], os.path.join(chk.scratch, 'replace'))]
+
+
+def run_replace(chk: core.Check, totals: dict, done: dict) -> None:
+    r, dot = done['RegexReplace']
+    chk.model('RegexReplace', r)
+    g = tla.load_dot(dot)
+    os.remove(dot)
+    sts = [st for st in g.states.values() if not st['unsure']]
+    totals['replace_unsure_excluded'] = len(g.states) - len(sts)
+    states = sorted(((st['rep'], st['valid'], dict(st['exp'])) for st in sts), key=lambda x: x[0])
+    if not any(not v for _, v, _ in states) or not any(any(p[:1] == 'g' and p != 'g0' for p in e.get(10, ())) for _, _, e in states):
+        raise tla.MachineryError('RegexReplace: vacuous (no invalid replacement or no group reference)')
+    t0 = time.time()
+    collect(chk, core.pool_map(replace_worker, [states[k::32] for k in range(32)], procs=PROCS), totals, 'replace')
+    chk.add('transitions', len(g.edges))
+    chk.add('traces_validated_against_impl', len(states))
+    print(f'  RegexReplace: states={len(g.states)} tlc={r.wall_s:.1f}s replay={time.time() - t0:.1f}s', flush=True)
 
 
 def collect(chk: core.Check, results, totals: dict, part: str = '') -> None:
@@ -1070,6 +1164,11 @@ def replay_case(case: dict):
             return None, 're.error'
     if kind == 'q':
         return None, fn_matches(case['subject'], case['pattern'], 'q', '3.1')
+    if kind == 'replace':
+        r = xpath_call('replace($s,$p,$r)', case['parser'], '1.0', s=case['subject'], p=case['pattern'], r=case['replacement'])
+        r = r[0] if isinstance(r, list) and len(r) == 1 else r
+        exp = case.get('_expected')
+        return (not (isinstance(r, tuple) and r[0] == 'err')) if exp == 'error (FORX0004)' else (r != exp), r
     if kind == 'fns':
         v, p, t, f, ver = case['parser'], case['pattern'], case['subject'], case['flag'], case['xsd_version']
         fn, law, exp = case['fn'], case.get('law'), case.get('_expected')
@@ -1139,15 +1238,14 @@ def run(chk: core.Check) -> None:
         'invalid patterns: translate_pattern must raise RegexError, fn:matches must raise FORX0002',
     ]
     totals: dict = {}
-    parts = os.environ.get('C12_PARTS', 'class,ast,fns,syntax').split(',')      # development aid only
-    if 'class' in parts:
-        run_classes(chk, totals)
-    if 'ast' in parts:
-        run_asts(chk, totals)
-    if 'fns' in parts:
-        run_fns(chk, totals)
-    if 'syntax' in parts:
-        run_syntax(chk, totals)
+    parts = os.environ.get('C12_PARTS', 'class,ast,fns,replace,syntax').split(',')      # development aid only
+    plan = [('class', jobs_classes, run_classes), ('ast', jobs_asts, run_asts), ('fns', jobs_fns, run_fns),
+            ('replace', jobs_replace, run_replace), ('syntax', jobs_syntax, run_syntax)]
+    plan = [p for p in plan if p[0] in parts]
+    # all TLC models first (TLC_PAR JVMs at a time), then the replays
+    done = tlc_batch([j for _, jobs, _ in plan for j in jobs(chk)], chk.tier)
+    for _, _, go in plan:
+        go(chk, totals, done)
     chk.coverage['details'] = {k: (round(v, 1) if isinstance(v, float) else v) for k, v in totals.items() if k != 'oracle_examples' and not k.startswith('_')}
     chk.coverage['configs'] = {
         'RegexClass': [dict(name=n, xsd_version=v, **{k: (sorted(x) if isinstance(x, set) else x) for k, x in c.items()})
@@ -1156,6 +1254,7 @@ def run(chk: core.Check) -> None:
                      for n, f, v, c, _, _ in AST_CONFIGS[chk.tier]],
         'RegexFns': [dict(name=n, flag=f, **{k: (sorted(x) if isinstance(x, set) else x) for k, x in c.items()})
                      for n, f, c in FNS_CONFIGS[chk.tier]],
+        'RegexReplace': [{k: (sorted(x) if isinstance(x, set) else x) for k, x in REPLACE_CONFIGS[chk.tier].items()}],
         'RegexSyntax': [dict(name=n, mode=m, xsd_version=v, tokens=sorted(t), first=sorted(fi), max_tokens=k)
                         for n, m, v, t, fi, k, _ in SYNTAX_CONFIGS[chk.tier]],
     }
@@ -1166,7 +1265,8 @@ def run(chk: core.Check) -> None:
                                 'RegexFns and RegexSyntax states all go through the XPath functions')
     chk.coverage['rule'] = ('every state of the dumped TLC graphs is one case: a class expression with its exact character set; '
                             'a pattern AST with its membership for every subject of the universe (search and full match); a '
-                            '(pattern, input) pair with its admissible partitions; a token string with its validity. '
+                            '(pattern, input) pair with its admissible partitions; a replacement string with its expansion per group count; '
+                            'a token string with its validity. '
                             'evaluations = single match / API calls on the implementation; non-trivial = class that is neither '
                             'empty nor universal, pattern with both matching and non-matching subjects, partition with > 1 part, '
                             'valid token string of > 1 token')
